@@ -1,9 +1,8 @@
 """Independent DFT oracle.
 
 N <= MATRIX_MAX: explicit O(N^2) DFT matrix in extended precision (np.longdouble), twiddle angles
-reduced exactly (k*n mod N in integers).  Larger N: numpy.fft in complex128 (a different build of
-the transform from the scipy.fft that pulsarbat calls, and always double precision whatever the
-input width).
+reduced exactly (k*n mod N in integers).  Larger N: numpy.fft in extended precision (clongdouble; a
+different build of the transform from the scipy.fft that pulsarbat calls, and wider than any input).
 """
 
 import functools
@@ -18,8 +17,19 @@ CLD = np.clongdouble
 _PI_LD = LD("3.14159265358979323846264338327950288419716939937510")
 
 
-@functools.lru_cache(maxsize=64)
 def matrix(N, sign=-1):
+    """DFT matrix exp(sign 2 pi i k n / N) in extended precision (cached for N <= MATRIX_MAX)."""
+    if N <= MATRIX_MAX:
+        return _matrix_cached(N, sign)
+    return _matrix(N, sign)
+
+
+@functools.lru_cache(maxsize=64)
+def _matrix_cached(N, sign):
+    return _matrix(N, sign)
+
+
+def _matrix(N, sign=-1):
     k = np.arange(N, dtype=np.int64)
     m = (k[:, None] * k[None, :]) % N
     ang = (2 * _PI_LD) * m.astype(LD) / LD(N)
@@ -39,14 +49,18 @@ def dft(x, axis=0, inverse=False):
         if inverse:
             y = y / LD(N)
         return np.moveaxis(y, 0, axis).astype(np.complex128)
-    xd = x.astype(np.complex128)
-    return (np.fft.ifft if inverse else np.fft.fft)(xd, axis=axis)
+    # numpy.fft (pocketfft templated on long double) in extended precision: a different build and a wider
+    # type than the scipy.fft float32/float64 transforms pulsarbat uses
+    xd = x.astype(CLD)
+    return (np.fft.ifft if inverse else np.fft.fft)(xd, axis=axis).astype(np.complex128)
 
 
 def dft_ld(x, axis=0, inverse=False):
     """As dft but keeps longdouble (only for N <= MATRIX_MAX)."""
     x = np.asarray(x)
     N = x.shape[axis]
+    if N > 1024:
+        return (np.fft.ifft if inverse else np.fft.fft)(x.astype(CLD), axis=axis)
     W = matrix(N, +1 if inverse else -1)
     xm = np.moveaxis(x, axis, 0).astype(CLD)
     y = np.tensordot(W, xm, axes=(1, 0))
